@@ -162,7 +162,10 @@ class G:
 
     def currency_text(self) -> str:
         for _ in range(20):
-            if self.p(0.7):
+            if self.p(0.04):
+                # currencies that begin like a keyword of another terminal (BOOL, NULL): still currencies
+                s = self.pick(['TRUEX', 'FALSEY', 'NULLS', 'TRUE1', 'NULL.A', 'FALSE-X', 'TRUER', 'NULLABLE'])
+            elif self.p(0.7):
                 s = self.pick(['USD', 'EUR', 'GBP', 'CAD', 'JPY', 'BTC', 'VTI', 'AAPL', 'X1'])
             elif self.p(self.c.exotic):
                 body = UP + DIG + "'._-"
